@@ -212,7 +212,7 @@ Lemma handle_auth_message_frame c s na n aad sg eph eph_ok rec ct now :
     | EstOk se e =>
       exists s4,
         challenges (hs s4) = chall_remove na (challenges (hs s)) /\
-        SessN na se (hs s) (hs s4) /\
+        SessN na se (hs s) (hs s4) /\ UPres (hs s) (hs s4) /\
         OutsExt (est_out e na) s s4 /\
         (verify_enr e na = true -> In (OEvent (HEstablished e (snd na) true)) (outs s4)) /\
         MF na n aad ct s4 s'
@@ -221,7 +221,7 @@ Lemma handle_auth_message_frame c s na n aad sg eph eph_ok rec ct now :
              (chall_remove na (challenges (hs s)) ++ [(na, ch, now + cfg_timeout c)]))
     | EstErr =>
       challenges (hs s') = chall_remove na (challenges (hs s)) /\ SessD (hs s) (hs s') /\
-      OutsExt failed_out s s'
+      OutsExt failed_out s s' /\ UPres (hs s) (hs s')
     end
   end.
 Proof.
@@ -233,7 +233,7 @@ Proof.
     set (s3 := if verify_enr e na then emit s2 (OEvent (HEstablished e (snd na) true))
                else emit s2 (OEvent (HUnverifiable e (snd na) (fst na)))).
     exists (new_session c s3 na se None now).
-    destruct (NS_new_session c s3 na se None now) as [E [HN HO]].
+    destruct (NS_new_session c s3 na se None now) as [E [HN [HO HU]]].
     assert (E3 : challenges (hs s3) = chall_remove na (challenges (hs s))).
     { unfold s3. destruct (verify_enr e na); reflexivity. }
     assert (S3 : sessions (hs s3) = sessions (hs s)).
@@ -244,21 +244,23 @@ Proof.
         constructor; [right; left; reflexivity | constructor].
       - exists [OEvent (HUnverifiable e (snd na) (fst na))]. split; [reflexivity |].
         constructor; [right; right; reflexivity | constructor]. }
-    split; [congruence | split; [| split; [| split]]].
+    split; [congruence | split; [| split; [| split; [| split]]]].
     + eapply SessD_F_N; [apply SessD_same; exact S3 | apply SessF_same; exact S3 | exact HN].
+    + intros H. apply HU. unfold SessUniq. rewrite S3. exact H.
     + eapply OutsExt_trans; [exact O3 |]. eapply OutsExt_weaken; [| exact HO]. intros o H; left; exact H.
     + intros Hv. destruct HO as [l [El _]]. rewrite El. apply in_or_app. left.
       unfold s3. rewrite Hv. cbn [emit outs]. apply in_or_app. right. left. reflexivity.
     + apply handle_message_frame.
   - reflexivity.
   - set (s2 := if fix_d6 c then remove_expected s1 (snd na) else s1).
-    destruct (QuietF_fail_session c s2 na ERR_INVALID_REMOTE_PACKET true) as [[E D] O].
+    destruct (QuietF_fail_session c s2 na ERR_INVALID_REMOTE_PACKET true) as [[E [D U]] O].
     assert (E2 : challenges (hs s2) = chall_remove na (challenges (hs s))) by (unfold s2; destruct (fix_d6 c); reflexivity).
     assert (S2 : sessions (hs s2) = sessions (hs s)) by (unfold s2; destruct (fix_d6 c); reflexivity).
     assert (O2 : outs s2 = outs s) by (unfold s2; destruct (fix_d6 c); reflexivity).
-    split; [congruence | split].
+    split; [congruence | split; [| split]].
     + eapply SessD_trans; [apply SessD_same; exact S2 | exact D].
     + destruct O as [l [El Fl]]. exists l. rewrite El, O2. auto.
+    + intros H. apply U. unfold SessUniq. rewrite S2. exact H.
 Qed.
 
 (* ------------------------------------------------------------------------------------------ *)
@@ -271,14 +273,15 @@ Definition key_for (c : config) (X : id) (k : key) : Prop :=
   (k_static k = X /\ k_ida k = cfg_local c /\ k_idb k = X).
 
 Definition NH (na : naddr) (se : session) (h h' : hstate) : Prop :=
-  challenges h' = challenges h /\ SessN na se h h'.
+  challenges h' = challenges h /\ SessN na se h h' /\ UPres h h'.
 
 Lemma NH_prefix na se a b d : QH a b -> SessF a b -> NH na se b d -> NH na se a d.
 Proof.
-  intros [E D] F [E' N]. split; [congruence | eapply SessD_F_N; eauto].
+  intros [E [D U]] F [E' [N U']]. split; [congruence | split; [eapply SessD_F_N; eauto |]].
+  intros H. apply U'. apply U. exact H.
 Qed.
 Lemma NS_NH na se s s' : NS na se s s' -> NH na se (hs s) (hs s').
-Proof. intros [E [N _]]. split; assumption. Qed.
+Proof. intros [E [N [_ U]]]. split; [assumption | split; assumption]. Qed.
 
 Lemma handle_challenge_frame c s src n seq cd now :
   let s' := handle_challenge c s src n seq cd now in
